@@ -1686,7 +1686,17 @@ impl Property for C02 {
                         out.tag("input:macro-with-parameter");
                     }
                 }
-                let line = c.line();
+                // `f` and `w` cases ask for the *stream* model (Model/C02Stream.lean: sources,
+                // pending stacks, lexers), the others for the list model; the theorem
+                // `stream_call_refines` says the two agree
+                let line = match mode {
+                    Mode::File(i, j) => Self::file_line(&c, i, j).replacen("f ", "st ", 1),
+                    Mode::Wrapped => Self::file_line(&c, 0, c.input.len()).replacen("f ", "st ", 1),
+                    _ => c.line(),
+                };
+                if line.starts_with("st ") {
+                    out.tag("model:stream");
+                }
                 let reply = drv.ask(&line);
                 let f: Vec<&str> = reply.split('|').map(|s| s.trim()).collect();
                 if f.len() != 8 {
